@@ -113,6 +113,23 @@ func HUnprotectArbitrary() {
 	}
 	if vr.Native() {
 		vNativeForge(km, k, role, hdrMode, b)
+		// O4 needs no forging: an acceptance that used no key is checked as it stands
+		si, sr := &vr.SpyHash{Inner: k.Integ_i}, &vr.SpyHash{Inner: k.Integ_r}
+		k2, decs := *k, 0
+		k2.Integ_i, k2.Integ_r = si, sr
+		k2.Encr_i = &vSpyCrypto{inner: k.Encr_i, dec: &decs}
+		k2.Encr_r = &vSpyCrypto{inner: k.Encr_r, dec: &decs}
+		var h *message.IKEHeader
+		if hdrMode == 1 {
+			var err error
+			if h, err = message.ParseHeader(b); err != nil {
+				return
+			}
+		}
+		r, err := DecodeDecrypt(b, h, &k2, vRole(role))
+		if err == nil && len(si.Sums)+len(sr.Sums) == 0 && decs == 0 {
+			vAcceptObligations(km, role, b, vValid(km, role, b), r, err, 0, 0)
+		}
 		return
 	}
 	valid := vValid(km, role, b)
